@@ -73,7 +73,7 @@ def check_case(case: dict) -> Result:
     n, v, cls = game["n"], game["v"], game["cls"]
     K = set(case["K"])
     scale = scale_of(v)
-    tol = 0.0 if cls == "int" else 1e-9 * scale
+    tol = 0.0 if cls in ("int", "dyadic") else 1e-9 * scale
     if "lib" not in case["game"] and not (is_sa(v, n) and is_monotone_nonincreasing(v, n)):
         raise HarnessError("generated game is not SAM")
     if "lib" in case["game"] and not (is_sa(v, n, tol) and is_monotone_nonincreasing(v, n, tol)):
